@@ -6,6 +6,7 @@
 
 mod c03;
 mod c04;
+mod c06;
 mod c16;
 mod c17;
 mod reflex;
@@ -186,6 +187,7 @@ fn main() {
     let ok = match prop.as_str() {
         "C03" => { c03::run(&mut ctx); true }
         "C04" => { c04::run(&mut ctx); true }
+        "C06" => { c06::run(&mut ctx); true }
         "C16" => { c16::run(&mut ctx); true }
         "C17" => { c17::run(&mut ctx); true }
         _ => false,
